@@ -71,6 +71,19 @@ class RefCache:
     def __init__(self):
         self.meta = {}
         self.data = {}
+        self.maybe_dropped = set()     # keys whose stored value was hidden by a non-ready metadata write (kept or dropped: back-end's choice)
+
+    def after_refusal(self, cache, k):
+        """a refused store may drop the old entry (a miss is always allowed) or leave it as it was; while the entry is hidden by a
+        non-ready status the choice cannot be observed"""
+        if k not in self.data:
+            return
+        if self.meta.get(k, {}).get("status") == "ready":
+            if cache.get(k) is None:
+                self.data.pop(k, None)
+                self.meta.pop(k, None)
+        else:
+            self.maybe_dropped.add(k)
 
     def get(self, k):
         if k in self.data and self.meta.get(k, {}).get("status") == "ready":
@@ -98,14 +111,13 @@ def check_cache(name, make, ops, violations, stats):
                 _, k, v, attrs = op
                 r = cache.store(mkstate(k, v, attributes=attrs))
                 accepted = bool(r)
+                ref.maybe_dropped.discard(k)
                 if accepted:
                     ref.data[k] = v
                     ref.meta[k] = {"status": "ready", "query": k}
                 else:
                     # refused: either the old entry is unchanged or nothing is retrievable (D.2); follow what the cache did
-                    if k in ref.data and cache.get(k) is None:
-                        ref.data.pop(k, None)
-                        ref.meta.pop(k, None)
+                    ref.after_refusal(cache, k)
             elif kind == "store_error":
                 _, k = op
                 s = mkstate(k, None, status="error")
@@ -113,9 +125,7 @@ def check_cache(name, make, ops, violations, stats):
                 r = cache.store(s)
                 if r:
                     violations.append(dict(contract="store() refuses error states", function=name, history=list(hist)))
-                if k in ref.data and cache.get(k) is None:      # a refused store may drop the old entry (a miss is always allowed)
-                    ref.data.pop(k, None)
-                    ref.meta.pop(k, None)
+                ref.after_refusal(cache, k)
             elif kind == "store_metadata":
                 _, k, status = op
                 md0 = cache.get_metadata(k)
@@ -127,8 +137,13 @@ def check_cache(name, make, ops, violations, stats):
                     ref.meta[k] = {"status": status, "query": k}
                     if not had:
                         ref.data.pop(k, None)
-                    elif cache.get(k) is None:
-                        ref.data.pop(k, None)      # a back-end may drop the old data on a metadata update (a miss is always allowed)
+                    elif status == "ready":
+                        if cache.get(k) is None:
+                            ref.data.pop(k, None)      # a back-end may drop the old data on a metadata update (a miss is always allowed)
+                    else:
+                        # a non-ready status hides the value; whether the back-end kept or dropped the bytes cannot be observed now:
+                        # a later ready metadata may re-expose the complete previously stored value, or the key may stay a miss
+                        ref.maybe_dropped.add(k)
             elif kind == "remove":
                 _, k = op
                 cache.remove(k)
@@ -154,6 +169,11 @@ def check_cache(name, make, ops, violations, stats):
                     if k not in ref.meta and kind in ("remove", "clean") and (present or k in listed) and op[-1] in (k, "clean"):
                         problem = "key still reported present after %s" % kind
                 else:
+                    if got is None and k in ref.maybe_dropped:
+                        ref.maybe_dropped.discard(k)      # the back-end dropped the hidden value: a miss, and it stays one
+                        ref.data.pop(k, None)
+                        continue
+                    ref.maybe_dropped.discard(k)
                     if got is None:
                         problem = "stored value is not served"
                     elif not same_value(got.data, exp):
@@ -199,6 +219,10 @@ def bounded(tier, seed):
             hists.append([("store", k1, "v1", {}), ("store", k2, b"PLAINTEXT-MARKER v2", {}), ("store_metadata", k1, "evaluation"), ("remove", k2), ("store", k1, 3, {})])
         hists.append([("store_metadata", "a", "ready")])
         hists.append([("store", "a", "v", {}), ("store_metadata", "a", "ready"), ("store", "a", "w", {})])
+        # a metadata-only write over a stored value of every built-in type: the old value, or a miss - never something else
+        for v in VALUES:
+            hists.append([("store", "a/b-c", v, {"kind": "x"}), ("store_metadata", "a/b-c", "ready")])
+            hists.append([("store", "ab", v, {}), ("store_metadata", "ab", "evaluation"), ("store_error", "ab"), ("store_metadata", "ab", "ready")])
         hists.append([("store", "a", "v", {"skip": True}), ("store", "a", "w", {})])
         hists.append([("store", "a", "v", {}), ("store", "a", "w", {"skip": True, "kind": "y"})])
         hists.append([("store", "a", "v", {"kind": "x"}), ("clean",), ("store", "a/b", 1, {"kind": "x"})])
